@@ -227,27 +227,31 @@ impl<T: PartialEq> FromIterator<T> for BTreeSet<T> {
 }
 
 // ---------------------------------------------------------------------------------------------
-/// Bounded typed vector (what `check_pending_blocks` collects the pending slots into).
+/// Bounded typed vector (what `check_pending_blocks` collects the pending slots into): at most
+/// NVEC elements (a fourth is a hard failure).  The consuming iterator counts its calls
+/// concretely, so a `for` loop over it is unrolled NVEC + 1 times and no further.
+pub const NVEC: usize = 3;
 pub struct Vec<T> {
-    e: [Option<T>; NSLOT],
+    e: [Option<T>; NVEC],
     len: usize,
 }
 impl<T> Vec<T> {
     pub fn new() -> Self {
-        Self { e: [None, None, None, None, None, None, None, None], len: 0 }
+        Self { e: [None, None, None], len: 0 }
     }
     pub fn push(&mut self, t: T) {
         let p = self.len;
-        if p >= NSLOT {
-            unsupported("stand-in vector full");
+        if p >= NVEC {
+            unsupported("stand-in vector full (more than 3 slots with a pending block)");
         }
-        each!(i, {
-            if i == p {
-                self.e[i] = Some(t);
-                self.len += 1;
-                return;
-            }
-        });
+        self.len = p + 1;
+        if p == 0 {
+            self.e[0] = Some(t);
+        } else if p == 1 {
+            self.e[1] = Some(t);
+        } else {
+            self.e[2] = Some(t);
+        }
     }
     pub fn len(&self) -> usize {
         self.len
@@ -264,28 +268,32 @@ impl<T> FromIterator<T> for Vec<T> {
 }
 pub struct VecIntoIter<T> {
     v: Vec<T>,
-    pos: usize,
+    calls: usize,
 }
 impl<T> Iterator for VecIntoIter<T> {
     type Item = T;
     fn next(&mut self) -> Option<T> {
-        let p = self.pos;
+        let p = self.calls;
+        if p >= NVEC {
+            return None;
+        }
+        self.calls = p + 1;
         if p >= self.v.len {
             return None;
         }
-        each!(i, {
-            if i == p {
-                self.pos += 1;
-                return self.v.e[i].take();
-            }
-        });
-        None
+        if p == 0 {
+            self.v.e[0].take()
+        } else if p == 1 {
+            self.v.e[1].take()
+        } else {
+            self.v.e[2].take()
+        }
     }
 }
 impl<T> IntoIterator for Vec<T> {
     type Item = T;
     type IntoIter = VecIntoIter<T>;
     fn into_iter(self) -> VecIntoIter<T> {
-        VecIntoIter { v: self, pos: 0 }
+        VecIntoIter { v: self, calls: 0 }
     }
 }
